@@ -803,6 +803,22 @@ def family_logs():
     logs.append(list(reversed(variants)) + [base])
     return logs
 
+def dotted_vs_nested_lines():
+    """systematic: the same two names once as ONE dotted key ({"owner.ssn": x}) and once as nested documents ({owner: {ssn: x}}), in consecutive lines and
+    in both orders: the key paths differ (one name "owner.ssn" against the two names "owner", "ssn") although they read the same when joined with dots"""
+    out = []
+    def line(flt, names):
+        l = '{"t":{"$date":"2020-01-01T00:00:00.000+00:00"},"s":"I","c":"COMMAND","id":51803,"ctx":"conn1","msg":"Slow query","attr":{"ns":"d.c","command":{"find":"c","filter":%s,"$db":"d"},"remote":"10.0.0.1:5"}}' % flt
+        out.append((l.encode(), {'kind': 'dotted_vs_nested', 'sensitive': [], 'sens_numbers': [], 'ip': '10.0.0.1:5', 'stats': {'dotted_vs_nested': 1}, 'names': names, 'verbs': ['dotted']}))
+    n = 0
+    for a, b in (('owner', 'ssn'), ('contact', 'email'), ('u', 'name'), ('addr1', 'zip'), ('x', 'uf_a'), ('k', 'tags')):
+        n += 1
+        dotted = '{"%s.%s":"Dn%dqa","pad":{"$in":["Dn%dqb"]}}' % (a, b, n, n)
+        nested = '{"%s":{"%s":"Dn%dqc","q":{"$in":["Dn%dqd"]}}}' % (a, b, n, n)
+        for first, second in ((dotted, nested), (nested, dotted)) if n % 2 else ((nested, dotted), (dotted, nested)):
+            line(first, [a, b, a + '.' + b]); line(second, [a, b, a + '.' + b])
+    return out
+
 def long_value_lines():
     """systematic: long literals around every power-of-two size a scratch buffer is likely to have (255 .. 65 KiB short of the line limit), each
     once alone and once as a PAIR of literals that agree on all but their last character - in the places a string is redacted"""
